@@ -755,6 +755,8 @@ static void DecodeNorm(Word Index) {
     DecodeAdr(&AdrResult, pOrder);
     if (AdrResult.ErgMode != -1) {
         if (pOrder->Codes[AdrResult.ErgMode] == -1) {
+            ShortInt ShortMode = AdrResult.ErgMode;
+
             if (AdrResult.ErgMode == ModZA) {
                 AdrResult.ErgMode = ModA;
             }
@@ -767,7 +769,9 @@ static void DecodeNorm(Word Index) {
             if (AdrResult.ErgMode == ModInd8) {
                 AdrResult.ErgMode = ModInd16;
             }
-            AdrResult.AdrVals[AdrCnt++] = 0;
+            if (AdrResult.ErgMode != ShortMode) {
+                AdrResult.AdrVals[AdrResult.AdrCnt++] = 0;
+            }
         }
         if (pOrder->Codes[AdrResult.ErgMode] == -1) {
             WrError(ErrNum_InvAddrMode);
